@@ -10,7 +10,7 @@ ROOT=$(cd "$(dirname "$0")" && pwd)
 export GOFLAGS=-mod=mod GOPROXY=off GOSUMDB=off GOTOOLCHAIN=local CGO_ENABLED=1
 H="$ROOT/harness"
 cp /repo/go.sum "$H/go.sum" 2>/dev/null || true
-RACE_PROPS="C06 C12 C17 C18"
+RACE_PROPS="C17"
 
 build() { # $1 = output, $2.. = extra flags
   out=$1; shift
